@@ -2,6 +2,7 @@ package checks
 
 import (
 	"fmt"
+	"os"
 	"runtime/debug"
 	"strings"
 
@@ -250,4 +251,12 @@ func toBisquitt(r *snref.Pkt) pkts.Packet {
 		return p1.NewWillMsgResp(p1.ReturnCode(r.RC))
 	}
 	return nil
+}
+
+// repoDir is the bisquitt tree under test (/repo unless the driver evaluates a scratch worktree).
+func repoDir() string {
+	if d := os.Getenv("VERIF_REPO"); d != "" {
+		return d
+	}
+	return "/repo"
 }
